@@ -1,13 +1,172 @@
 /-
-  Driver.OpsC19 — protocol operations for property C19 (filled in by the C19 work package).
-  Contract: `handleC19 op` returns the parser for operation `op` or `none` if `op` is not one of
-  this property's operations.
+  Driver.OpsC19 — protocol operations for property C19 (effects, repeatability).
+
+    c19hist <next> <nobjs> {obj} <nsteps> {step}
+        obj  := <dim> <slot> <nconn> {<ctype> <slot>} <npf> {<name> <ntail> t… <slot>} <ncf> {<name> <ctype> <ntail> t… <slot>}
+        slot := s<id> | c
+        step := <ok> <op> args…     ops: compare s r | equals a b | pred a b | sort o | sortpoints o | sortcells o |
+                                         strip o | extend o dim | merge a b alldup | diff src ref | write o |
+                                         tomeshio o | frommeshio o | tomeshio-inplace o
+      → hyp=<wf> wr=<w1>/<w2>/… spec=(one `-` per step) res=<r1>/… files=<n1>/… untouched=<0|1>
+        w_k = identities written by step k that existed before it (`-` = none), r_k = `-` | `=<pool index>` | object description
+    c19pred <kind> <rel> <abs> <nevents> {call <arr> <arr> | setrel <tol> | setabs <tol>}
+      → hyp=1 model=<verdict letters> spec=<verdict letters>
+    c19ladder <noReorder> <noDimMatch> <dimS> <dimR> <structured> <eq0> <eqExt> <eqPerm> <eqSortc> <k>
+      → hyp=1 model=<ok:callbacks,…> spec=<first ok repeated>
 -/
 import Driver.Proto
-namespace Fc.Drv
+import FcModel.Spec.C19
+namespace Fc.Drv.C19
+open Fc Fc.C19
+
+def pSlot : P Slot := do
+  let t ← tok
+  if t == "c" then pure .computed
+  else if t.startsWith "s" then
+    match (t.drop 1).toNat? with
+    | some i => pure (.stored i)
+    | none => failure
+  else failure
+
+def pEObj : P EObj := do
+  let dim ← pNat
+  let p ← pSlot
+  let conn ← pList (do let ct ← tok; let s ← pSlot; pure (ct, s))
+  let pf ← pList (do let n ← tok; let tail ← pList pNat; let s ← pSlot; pure (EField.mk n tail s))
+  let cf ← pList (do let n ← tok; let ct ← tok; let tail ← pList pNat; let s ← pSlot; pure (ECellField.mk n ct tail s))
+  pure ⟨dim, p, conn, pf, cf, []⟩
+
+def pEStep : P EStep := do
+  let ok ← pBool
+  let name ← tok
+  let op ← match name with
+    | "compare" => do let s ← pNat; let r ← pNat; pure (EOp.compare s r)
+    | "equals" => do let a ← pNat; let b ← pNat; pure (EOp.equals a b)
+    | "pred" => do let a ← pNat; let b ← pNat; pure (EOp.predEval a b)
+    | "sort" => do let o ← pNat; pure (EOp.view .sort o)
+    | "sortpoints" => do let o ← pNat; pure (EOp.view .sortPoints o)
+    | "sortcells" => do let o ← pNat; pure (EOp.view .sortCells o)
+    | "strip" => do let o ← pNat; pure (EOp.view .strip o)
+    | "extend" => do let o ← pNat; let d ← pNat; pure (EOp.extend o d)
+    | "merge" => do let a ← pNat; let b ← pNat; let d ← pBool; pure (EOp.merge a b d)
+    | "diff" => do let s ← pNat; let r ← pNat; pure (EOp.diff s r)
+    | "write" => do let o ← pNat; pure (EOp.write o)
+    | "tomeshio" => do let o ← pNat; pure (EOp.toMeshio o)
+    | "frommeshio" => do let o ← pNat; pure (EOp.fromMeshio o)
+    | "tomeshio-inplace" => do let o ← pNat; pure (EOp.toMeshioInPlace o)
+    | _ => failure
+  pure ⟨op, ok⟩
+
+def showSlot : Slot → String
+  | .stored i => "s" ++ toString i
+  | .computed => "c"
+
+def showEObj (o : EObj) : String :=
+  ",".intercalate (["d" ++ toString o.dim, "P:" ++ showSlot o.points]
+    ++ o.conn.map (fun c => "K:" ++ c.1 ++ ":" ++ showSlot c.2)
+    ++ o.pf.map (fun (f : EField) => "F:" ++ f.name ++ ":" ++ showSlot f.slot)
+    ++ o.cf.map (fun (f : ECellField) => "C:" ++ f.name ++ ":" ++ f.ctype ++ ":" ++ showSlot f.slot))
+
+def showIds (l : List Nat) : String := if l.isEmpty then "-" else ",".intercalate (l.map toString)
+
+/-- per-step report: (written existing ids, result, files) -/
+def histReport (w : World) : List EStep → List (String × String × String)
+  | [] => []
+  | s :: r =>
+    let (w', e) := stepEffect w s
+    let res := match e.result with
+      | none => "-"
+      | some (.inl k) => "=" ++ toString k
+      | some (.inr o) => showEObj o
+    (showIds (e.writesToExisting w.next), res, toString e.filesCreated) :: histReport w' r
+
+/-- well-formed history: operand indices refer to existing pool objects, stored ids exist -/
+def histWf (w : World) : List EStep → Bool
+  | [] => true
+  | s :: r =>
+    (operands s.op).all (· < w.objs.length) && w.objs.all (fun o => o.reach.all (· < w.next)) &&
+    histWf (stepEffect w s).1 r
+
+def opC19Hist : P String := do
+  let next ← pNat
+  let objs ← pList pEObj
+  let steps ← pList pEStep
+  let w0 : World := ⟨next, objs, [], 0⟩
+  let rep := histReport w0 steps
+  let wr := "/".intercalate (rep.map (·.1))
+  let res := "/".intercalate (rep.map (·.2.1))
+  let files := "/".intercalate (rep.map (·.2.2))
+  let spec := "/".intercalate (steps.map fun s => showIds (Spec.allowedWrites s))
+  let hyp := histWf w0 steps && steps.all (·.op.isCurrent)
+  pure s!"hyp={showBool hyp} wr={if steps.isEmpty then "-" else wr} spec={if steps.isEmpty then "-" else spec} res={if steps.isEmpty then "-" else res} files={if steps.isEmpty then "-" else files} untouched={showBool (Spec.inputsUntouched w0 steps)}"
+
+def pPredEvent : P PredEvent := do
+  let t ← tok
+  match t with
+  | "call" => do let a ← pArr; let b ← pArr; pure (.call a b)
+  | "setrel" => do let x ← pTol; pure (.setRel x)
+  | "setabs" => do let x ← pTol; pure (.setAbs x)
+  | _ => failure
+
+def opC19Pred : P String := do
+  let k ← tok
+  let kind ← match k with
+    | "fuzzy" => pure PredKind.fuzzy
+    | "default" => pure PredKind.default
+    | "exact" => pure PredKind.exact
+    | _ => failure
+  let rel ← pTol
+  let abs ← pTol
+  let evs ← pList pPredEvent
+  let m := (runPred (PredObj.fresh kind rel abs) evs).2
+  let sp := Spec.specPred kind rel abs evs
+  let sh := fun (l : List Verdict) => if l.isEmpty then "-" else String.join (l.map showVerdict)
+  pure s!"hyp=1 model={sh m} spec={sh sp}"
+
+/-- toy instance of the ladder: a data set is (stage, dim); stage 0 raw, 1 extended, 2 points sorted,
+    3 canonical (points and cells sorted).  The domain-equality verdict of each stage is given. -/
+def toyLadder (structured eq0 eqExt eqPerm eqSortc : Bool) : LadderOps (Nat × Nat) (Bool × Nat) where
+  cmp := fun s _ => (match s.1 with | 0 => eq0 | 1 => eqExt | 2 => eqPerm | _ => eqSortc, s.1)
+  ok := fun s => s.1
+  dim := fun d => d.2
+  structured := fun d => structured && d.1 == 0
+  ext := fun m d => (max d.1 1, m)
+  perm := fun d => (max d.1 2, d.2)
+  sortc := fun d => (3, d.2)
+
+def ladderRuns {D S} (L : LadderOps D S) (fl : CmpFlags) : Nat → CmpState D → List (S × Nat)
+  | 0, _ => []
+  | k + 1, st =>
+    let r := runComparator L fl st
+    (r.suite, r.callbacks) :: ladderRuns L fl k r.state
+
+def opC19Ladder : P String := do
+  let noReorder ← pBool
+  let noDim ← pBool
+  let dS ← pNat
+  let dR ← pNat
+  let structured ← pBool
+  let eq0 ← pBool
+  let eqExt ← pBool
+  let eqPerm ← pBool
+  let eqSortc ← pBool
+  let k ← pNat
+  let L := toyLadder structured eq0 eqExt eqPerm eqSortc
+  let runs := ladderRuns L ⟨noReorder, noDim⟩ k ⟨(0, dS), (0, dR)⟩
+  let model := ",".intercalate (runs.map fun r => showBool r.1.1 ++ ":" ++ toString r.2)
+  let first := (runs.head?.map (·.1.1)).getD false
+  let spec := ",".intercalate (runs.map fun _ => showBool first)
+  let modelV := ",".intercalate (runs.map fun r => showBool r.1.1)
+  pure s!"hyp=1 model={if runs.isEmpty then "-" else model} verdicts={if runs.isEmpty then "-" else modelV} spec={if runs.isEmpty then "-" else spec}"
 
 def handleC19 (op : String) : Option (P String) :=
   match op with
+  | "c19hist" => some opC19Hist
+  | "c19pred" => some opC19Pred
+  | "c19ladder" => some opC19Ladder
   | _ => none
 
-end Fc.Drv
+end Fc.Drv.C19
+
+/-- re-export for Driver/Main.lean -/
+def Fc.Drv.handleC19 := Fc.Drv.C19.handleC19
